@@ -108,8 +108,8 @@ func SpecC14() simkit.Spec {
 func SpecC15() simkit.Spec {
 	return simkit.Spec{
 		Prop: "C15", Gen: genTree(4, 6, 24, 4, 5, 2, false), NewPlan: func() any { return &TreePlan{} },
-		Exec: execTree(Oracles{C15: true}, ObsOracles{}, func(w *World, o *Observer, r *simkit.Run) bool { return true }),
-		Rule: treeRule + "oracle: for every produced block the validator the node schedules for (parent, timestamp) equals the reference schedule (tally of votes minus vetoes along the branch at the parent checkpoint, >= minimum, top ten by votes then key, else federation; round-robin by slot); distinct = hash of the full trace",
-		Components: nodeComponents, Probes: []string{"probe.reward_block", "probe.schedule_queries"},
+		Exec: execTree(Oracles{C15: true}, ObsOracles{C15: true}, func(w *World, o *Observer, r *simkit.Run) bool { return true }),
+		Rule: treeRule + "oracle: for every produced block, and on the long-lived observed node after every delivery for children of its best block and of the last epoch-end blocks of any branch, the validator the node schedules for (parent, timestamp) equals the reference schedule (tally of votes minus vetoes along the branch at the parent checkpoint, >= minimum, top ten by votes then key, else federation; round-robin by slot); distinct = hash of the full trace",
+		Components: nodeComponents, Probes: []string{"probe.reward_block", "probe.schedule_queries", "probe.schedule_queries_observer"},
 	}
 }
